@@ -540,6 +540,29 @@ where
     use mahf::components::{initialization, mutation, recombination};
     let name = name.strip_suffix("|log4").unwrap_or(name);
     let cond = || LessThanN::iterations(n);
+    if name == "cond" {
+        // C15: configurations that differ only in the logical structure of their loop condition
+        let a = || LessThanN::iterations(3);
+        let b = || mahf::conditions::EveryN::iterations(2);
+        let c = || LessThanN::evaluations(50);
+        let cond: Box<dyn mahf::Condition<P>> = match p["c"].as_str().unwrap() {
+            "a" => a(),
+            "!a" => !a(),
+            "!!a" => !!a(),
+            "b" => b(),
+            "a&b" => a() & b(),
+            "a|b" => a() | b(),
+            "b&a" => b() & a(),
+            "(a|b)&c" => (a() | b()) & c(),
+            "(a&b)&c" => (a() & b()) & c(),
+            "a&(b|c)" => a() & (b() | c()),
+            "(a&b)|c" => (a() & b()) | c(),
+            "!(a&b)" => !(a() & b()),
+            "!a&b" => !a() & b(),
+            other => panic!("unknown condition form {other}"),
+        };
+        return Ok(Configuration::builder().while_(cond, |b| b.do_(mahf::logging::Logger::new())).build());
+    }
     if name == "ident" {
         // C15: configurations that differ only in an identifier type parameter
         use mahf::identifier as mid;
@@ -857,10 +880,13 @@ pub fn main(args: &Args) -> usize {
                     _ => facts!(perm_template::<TspProblem>(name, params, n)),
                 };
                 // `evaluate()` is `evaluate_with::<Global>()`: the same configuration
-                let key = if name == "ident" {
+                let key = if name == "cond" {
+                    format!("cond|{}", params["c"].as_str().unwrap())
+                } else if name == "ident" {
                     format!("ident|{}", params["id"].as_str().map(|i| if i == "default" { "mahf::Global" } else { i }).unwrap())
                 } else {
-                    format!("{name}|{params}|{n}")
+                    // (a "|log4" variant is the same configuration run with another log setup)
+                    format!("{}|{params}|{n}", name.strip_suffix("|log4").unwrap_or(name))
                 };
                 let nk = keys.len() as i64 + 1;
                 let key_id = *keys.entry(key).or_insert(nk);
